@@ -469,6 +469,10 @@ package parse
 //@   ensures result0 == node_pfx_ns(self, prefix) && result1 == node_pfx_err(self, prefix)
 //@ func (Node).Path
 //@   ensures result == node_path(self)
+//@ func (Node).LookupChild
+//@   params t name
+//@   nopanic
+//@   ensures result == node_lookup_child(self, t, name)
 //@ func (Node).LookupGrouping
 //@   params s
 //@   ensures implies(result1, result0 != nil)
